@@ -16,21 +16,21 @@ NA = {
 }
 
 TEXT = {
-    "C02": ("the plumbing around the numeric kernels: typestate analysis (NONE / OK / STALE) of the memoised P matrix over the CFG of every method of REPEX_state with callee summaries (no read of a matrix computed for an earlier weight matrix or busy set, no stale exit of an externally called method, only the getter stores), provenance of the getter's arguments, one busy mask for both axes with zero re-insertion at positions counted from the same mask, the row sort undone through the index that sorted, read window = write window for every kernel call, shape of the permanent formula in permanent_prob (entry, minor, skip condition, per-row rescaling on a copy), index units of the idle block (reduced vs full minus count), quick_prob touching its argument only through shape and zero pattern, sample counting of the Monte-Carlo estimate (initial identity + one matrix per iteration = divisor), exact/sampled dispatch threshold taken on the evaluated block, index guard of the only-[0-]-idle block, non-negative probability budget of the fast kernel (CFG path query), no value derived from the arrangement hoisted above the sweep that mutates it, staircase sort keys read the idle block through its zero pattern only",
+    "C02": ("the plumbing around the numeric kernels: typestate analysis (NONE / OK / STALE) of the memoised P matrix over the CFG of every method of REPEX_state with callee summaries (no read of a matrix computed for an earlier weight matrix or busy set, no stale exit of an externally called method, only the getter stores), provenance of the getter's arguments, one busy mask for both axes with zero re-insertion at positions counted from the same mask, the row sort undone through the index that sorted, read window = write window for every kernel call, shape of the permanent formula in permanent_prob (entry, minor, skip condition, per-row rescaling on a copy), index units of the idle block (reduced vs full minus count), quick_prob touching its argument only through shape and zero pattern, sample counting of the Monte-Carlo estimate (initial identity + one matrix per iteration = divisor), exact/sampled dispatch threshold taken on the evaluated block, index guard of the only-[0-]-idle block, non-negative probability budget of the fast kernel (CFG path query), no value derived from the arrangement hoisted above the sweep that mutates it, staircase sort keys read the idle block through its zero pattern only, no integer cast / rounding of weights anywhere in the permanent pipeline",
             "does not decide that fast_glynn_perm computes the permanent, that quick_prob is the closed form for 0/1 staircases, that find_blocks finds the blocks, random_prob, nor double stochasticity as a numeric fact"),
     "C10": ("exact finite abstraction of the wire-fencing scan (order parameters touched only through comparisons with the two bounds: 5 regions), abstract interpretation of the loop body over bool / region / affine-integer values giving the implementation's transducer, product with the transducer written from the property text explored to a fixpoint (equal emissions as affine forms at every reachable product state; witness word on a mismatch), shape of the proportional selection law and of the segment layout, weight-vector plumbing of calc_cv_vector / compute_weight, sibling agreement of the (left, right) pair across the three call chains and of the move/interface index shift, interface roles of the zero-swap weight chain, hoisted per-frame reads of the progress coordinate interpreted / flattened order vectors reported",
             "does not decide the numeric value of the high-acceptance swap ratio, nor that left < right at run time (assumed; enforced for wf ensembles by check_config)"),
     "C03": ("lock/ownership discipline on AST+CFG: who-may-write busy flags, checked acquire/release by dominance, acquire-on-all-paths before a job is recorded, zero-swap partner only when idle (case split over contradictory disjuncts), engine claim under a free test on the same slot, one claim call per job, private worker directory provenance, path-number representation (int vs str) inference, whole busy set consulted, no stale loop variables, one engine object per bookable slot (no list replication), partner acquired before the job is recorded, ensemble-index units of the in-flight record, acquires only where the job is recorded (who-may-call), P rows attributed to their paths, memoised P invalidated by every slot permutation, in-flight record paired position by position, path-number counter stored back before the commit (no live number reused after a crash)",
             "does not decide non-zero weight of the picked path nor the global interleaving invariant as such"),
-    "C04": ("accumulator typestate: who-may-write ['frac'], accumulate only under the idle guard after the new path is inserted and before the commit (effect analysis of write_toml), archive exactly once under status ACC with removal from the live table, restart key-set agreement, a restart keeps the persisted data file (configuration provenance), per-step file writes durable before the commit, path numbers never tested by truthiness, P-matrix cache typestate under the recorded weights, busy set covers every path of every in-flight job, busy exactly while a recorded job holds the ensemble, replacement only under the move's acceptance",
+    "C04": ("accumulator typestate: who-may-write ['frac'], accumulate only under the idle guard after the new path is inserted and before the commit (effect analysis of write_toml), archive exactly once under status ACC with removal from the live table, restart key-set agreement, a restart keeps the persisted data file (configuration provenance), per-step file writes durable before the commit, path numbers never tested by truthiness, P-matrix cache typestate under the recorded weights, busy set covers every path of every in-flight job, busy exactly while a recorded job holds the ensemble, replacement only under the move's acceptance, accumulation loop on every normal path of a completed step",
             "does not decide one unit per idle column (double stochasticity of P)"),
     "C05": ("path-number counter discipline, re-sort dominates the commit and nothing serialised changes after it, the re-sort and the recording consult the whole busy set in one representation, ensemble-index units, bound guard of the only-[0-]-idle case by linear arithmetic, progress of the re-sort by symbolic evaluation of the partner column over the staircase weight row, normalisation of the Monte-Carlo P matrix by linear counting, no P evaluation reachable after the acquire store, memoised P invalidated by every slot permutation (typestate), non-negative probability budget of the fast kernel, accepted paths carry non-zero own weight (weight plumbing), engines released over the whole occupation table, P rows scattered back to their paths (no zero-weight pick)",
             "does not decide existence of a perfect matching in general, termination of sort_trajstate, finiteness of P"),
     "C06": ("writer/reader key and role agreement for restart.toml and the path files, determinism taint analysis, per-instance mutable state, commit is final, configuration keys under one section path, the weight function called with the same configuration origins at run time and at load, a restart does not rewrite persisted settings, tables emitted from per-run dictionaries in sorted order, no branch on the restart tag of reloaded paths, every step committed, every in-process draw fed from a persisted job stream, live paths never modified by moves (copies to engine sinks), restored spawn counter agrees with the re-issue (no double count), double precision of what is read back",
             "does not decide byte identity of files nor floating-point equality across a split"),
-    "C07": ("stream provenance and randomness effect analysis: seed provenance of every generator construction, spawn-tree shape of stream keys, one-shot restore of the scheduler stream's state only (generator object never replaced per job), spawn counter = job ordinal (who-may-spawn), every draw and stochastic third-party entry point fed from the job stream at call time, streams never parked in instance state, spawn counter as a linear form in completed steps and in-flight jobs (sign of the in-flight coefficient), case-normalised selectors never tested raw (contradiction rule), restored spawn counter agrees with the re-issue, no child from a copied generator, no collapsing operation between draw and seed",
+    "C07": ("stream provenance and randomness effect analysis: seed provenance of every generator construction, spawn-tree shape of stream keys, one-shot restore of the scheduler stream's state only (generator object never replaced per job), spawn counter = job ordinal (who-may-spawn), every draw and stochastic third-party entry point fed from the job stream at call time, streams never parked in instance state, spawn counter as a linear form in completed steps and in-flight jobs (sign of the in-flight coefficient), case-normalised selectors never tested raw (contradiction rule), restored spawn counter agrees with the re-issue, no child from a copied generator, no collapsing operation between draw and seed, seed sequence rebuilt in the constructor for every restart (guard facts)",
             "does not decide statistical independence of NumPy SeedSequence children"),
-    "C08": ("effect-order analysis of the commit protocol on the CFG: store before commit, atomic replace of restart.toml (closed before the rename), every maintained [current] key stored on every path to the dump, writes durable before the commit, deletion operands only from the retirement FIFO under lag and initial-path guards, restart refuses an incomplete tree, idempotence/reconciliation of pre-commit effects, every issuer records its job in one index unit, commit is final, every normal path through the step commits, restart file written only from a re-sorted slot order (CFG path query), in-flight record paired position by position with the job's ensembles, delete queue filled only for replaced paths (dominance), one representation of in-flight path numbers, every ensemble of a re-issued job acquired, no effect of write_toml takes the restart file away from its final name",
+    "C08": ("effect-order analysis of the commit protocol on the CFG: store before commit, atomic replace of restart.toml (closed before the rename), every maintained [current] key stored on every path to the dump, writes durable before the commit, deletion operands only from the retirement FIFO under lag and initial-path guards, restart refuses an incomplete tree, idempotence/reconciliation of pre-commit effects, every issuer records its job in one index unit, commit is final, every normal path through the step commits, restart file written only from a re-sorted slot order (CFG path query), in-flight record paired position by position with the job's ensembles, delete queue filled only for replaced paths (dominance), one representation of in-flight path numbers, every ensemble of a re-issued job acquired, no effect of write_toml takes the restart file away from its final name, no commit in the start-up phase while saved jobs wait to be re-issued (call-graph closure)",
             "does not decide file-system semantics nor contents of half-written MD trajectory files"),
     "C09": ("relational return summaries flag<=>status 'ACC', replace-only-on-ACC guards, copy-before-mutate provenance of frames reaching engine sinks, interval arithmetic for the shooting index, comparator-convention table, linear arithmetic on symbolic lengths (truncated extension rejected, Metropolis length budget), extension guards use the ensemble's own interfaces, no dead verdict (liveness), positional role agreement, no stale loop variables, acceptance gates of the shooting move as must-pass-through facts (kick, backward side, forward success, left touch, middle crossing), weight entries with the inclusive crossing convention, no branch on the restart tag, a rejection never returns the input path's stale status (path query over re-bindings and status stores), high-acceptance swap weights pair interfaces and move of one ensemble (monomial ratio), configuration reaches calc_cv_vector unmodified at run_md, decisions on component 0 of the order parameter, frame 0 of an in-process propagation is the starting phase point for every subcycles (storing test on the bare counter)",
             "does not decide ensemble membership of accepted paths in general"),
@@ -50,9 +50,9 @@ TEXT = {
             "does not model interleavings of worker coroutines"),
     "C18": ("validation coverage table extracted from check_config's raise guards (normalised comparisons), must-validate-before-use by dominance, idempotent-by-shape normalisation on the restart path (configuration provenance), configuration keys under one section path, no stale loop variables, iteration-space completeness of the engine-defined clause, configuration reaches calc_cv_vector whole at every call site, restart refused when any live path is missing on disk, no equal-length demand beyond check_config, every element access of the interface / move lists inside check_config dominated by the clause rejecting a list too short for it (linear index bounds)",
             "does not decide that every accepted configuration initialises"),
-    "C19": ("writer/reader layout agreement: g96 field widths, xyz field counts/column order/header token, lammpstrj header/column constants across four functions, TRR header/data-item tables, box element order by constant folding, reverse-velocity siblings, frame k is frame k (selectors, strides, TRR counter), regex syntax-tree agreement of the template editor/reader, buffer ownership, positional role agreement, frame addressed by a computed offset, locality of CP2K section editing (one line out per line in, plain copy), requested template entries recognised by membership, positional bool literals land on flag parameters (signature table), lammpstrj box block read whole, TRR byte-order switch, dtype form of the data decoders, whole-word placeholder substitution on the template line, case-normalised CP2K keywords, fixed-column g96 records never tokenised by blanks when the writer's float fields are adjacent",
+    "C19": ("writer/reader layout agreement: g96 field widths, xyz field counts/column order/header token, lammpstrj header/column constants across four functions, TRR header/data-item tables, box element order by constant folding, reverse-velocity siblings, frame k is frame k (selectors, strides, TRR counter), regex syntax-tree agreement of the template editor/reader, buffer ownership, positional role agreement, frame addressed by a computed offset, locality of CP2K section editing (one line out per line in, plain copy), requested template entries recognised by membership, positional bool literals land on flag parameters (signature table), lammpstrj box block read whole, TRR byte-order switch, dtype form of the data decoders, whole-word placeholder substitution on the template line, case-normalised CP2K keywords, fixed-column g96 records never tokenised by blanks when the writer's float fields are adjacent, TRR data blocks unrolled over the constant key tables: decoder per block",
             "does not decide round-trip equality of values"),
-    "C20": ("purity of OrderParameter.calculate under NumPy view/copy semantics, box-form normalisation and raw differences before the wrap, velocity dependence declared and the flip reaching the call, image-shift invariance of the minimum-image helper by symbolic algebra (rounding equivariance; asymptotic-slope refutation), translation/rotation invariance of distance, distance rate, dihedral and puckering by abstract interpretation over geometric types, box lengths followed through helper functions and methods (every return derives from the box of the system given now), per-axis guard of the wrap formula (open axes with infinite length), velocity flip guarded by None tests only, box lengths along the component axis (shape provenance), centroid by axis-0 mean, truncating remainder (fmod) reported / floored remainder translated to its floor form",
+    "C20": ("purity of OrderParameter.calculate under NumPy view/copy semantics, box-form normalisation and raw differences before the wrap, velocity dependence declared and the flip reaching the call, image-shift invariance of the minimum-image helper by symbolic algebra (rounding equivariance; asymptotic-slope refutation), translation/rotation invariance of distance, distance rate, dihedral and puckering by abstract interpretation over geometric types, box lengths followed through helper functions and methods (every return derives from the box of the system given now), per-axis guard of the wrap formula (open axes with infinite length), velocity flip guarded by None tests only, box lengths along the component axis (shape provenance), centroid by axis-0 mean, truncating remainder (fmod) reported / floored remainder translated to its floor form, no whole-vector pre-test in front of the wrap",
             "does not decide the half-box bound numerically nor rotation invariance of periodic variants while a wrap is active"),
 }
 
